@@ -793,6 +793,10 @@ fn run_cm(w: &[&str], ctx: &mut Ctx) -> String {
             let b = op.as_bytes();
             let ok = match b[0] {
                 b'A' | b'x' => b.len() == 2 && d3(b[1]),
+                // V<node>: the node forgets its prepared statements; F<node> / G<node>: the node refuses / accepts PREPAREs
+                // (never node 0, so that a preparation always succeeds somewhere)
+                b'V' => b.len() == 2 && b[1].is_ascii_digit() && ((b[1] - b'0') as i64) < n as i64,
+                b'F' | b'G' => b.len() == 2 && b[1].is_ascii_digit() && b[1] > b'0' && ((b[1] - b'0') as i64) < n as i64,
                 b'g' => {
                     slots += 1;
                     b.len() == 2 && d3(b[1])
@@ -819,14 +823,26 @@ fn run_cm(w: &[&str], ctx: &mut Ctx) -> String {
     let reg_h = reg.clone();
     let vers_h = Arc::clone(&vers);
     // what the node encoded for a request: pk as given, v = the version, w = "w<version>"
+    // per node: the texts it holds prepared, and whether it refuses PREPAREs
+    let nodes = Arc::new(Mutex::new((vec![std::collections::HashSet::<usize>::new(); n], vec![false; n])));
+    let nodes_h = Arc::clone(&nodes);
     let handler: ClusterHandler = Box::new(move |r: &Req| match &r.parsed {
         Parsed::Prepare { text } => {
             let bind = Specs::new("ks", "t", &[("pk", CqlT::Native(T_BLOB))]);
+            let Some(t) = (0..3).find(|t| CS_TEXTS[*t] == text) else { return vec![act_error(0x2000, "unknown statement text", &[])] };
+            let mut ns = nodes_h.lock().unwrap();
+            if ns.1[r.node] {
+                return vec![act_error(0x2200, "scripted refusal", &[])];
+            }
+            ns.0[r.node].insert(t);
             vec![reg_h.answer_prepare(r, &cs_id(text, 0), &bind, &[0]).unwrap_or_else(|| act_error(0x2000, "unknown statement text", &[]))]
         }
         Parsed::Execute { id, params, .. } => {
             let pk = params.values.first().cloned().flatten();
             let t = (0..3).find(|t| cs_id(CS_TEXTS[*t], 0) == *id);
+            if !t.map(|t| nodes_h.lock().unwrap().0[r.node].contains(&t)).unwrap_or(false) {
+                return vec![Act::Respond(mk::RESP_ERROR, mk::body_unprepared(id))];
+            }
             let ver = t.map(|t| vers_h.lock().unwrap()[t]).unwrap_or(0);
             vec![reg_h
                 .answer_execute(r, None, |specs| {
@@ -887,6 +903,14 @@ fn run_cm(w: &[&str], ctx: &mut Ctx) -> String {
                     reg.set(&cs_id(CS_TEXTS[t], 0), &cm_mid(t, ver), cm_specs(ver));
                     out.push((*op).to_owned());
                 }
+                b'V' => {
+                    nodes.lock().unwrap().0[(b[1] - b'0') as usize].clear();
+                    out.push((*op).to_owned());
+                }
+                b'F' | b'G' => {
+                    nodes.lock().unwrap().1[(b[1] - b'0') as usize] = b[0] == b'F';
+                    out.push((*op).to_owned());
+                }
                 b'g' | b'c' => {
                     let texts: Vec<usize> = b[1..].iter().map(|c| (*c - b'0') as usize).collect();
                     let barrier = Arc::new(tokio::sync::Barrier::new(texts.len()));
@@ -931,11 +955,55 @@ fn run_cm(w: &[&str], ctx: &mut Ctx) -> String {
                     let cur = vers.lock().unwrap()[t];
                     let frames: Vec<Req> = user_frames(&cluster).into_iter().skip(before).collect();
                     let execs: Vec<&Req> = frames.iter().filter(|f| matches!(f.parsed, Parsed::Execute { .. })).collect();
-                    if execs.len() != 1 {
-                        ctx.fail(format!("one execution put {} EXECUTE frames on the wire", execs.len()));
-                        out.push(format!("{}~frames={}", op, execs.len()));
+                    // PREPAREs before the first EXECUTE belong to the miss of `x`; one after it is a re-preparation
+                    let first_exec_seq = execs.first().map(|f| f.seq).unwrap_or(u64::MAX);
+                    let before_exec: Vec<Req> = frames.iter().filter(|f| f.seq < first_exec_seq).cloned().collect();
+                    let re_preps: Vec<&Req> = frames.iter().filter(|f| f.seq > first_exec_seq && matches!(f.parsed, Parsed::Prepare { .. })).collect();
+                    let refusing_now = nodes.lock().unwrap().1.clone();
+                    let shape_ok = match (execs.len(), re_preps.len()) {
+                        (1, 0) => true,
+                        // UNPREPARED: PREPARE of the handle's text on the same connection; then, unless the node refused, the EXECUTE again
+                        (k, 1) if k == 1 || k == 2 => {
+                            let same_conn = execs.iter().all(|e| (e.node, e.conn) == (execs[0].node, execs[0].conn)) && (re_preps[0].node, re_preps[0].conn) == (execs[0].node, execs[0].conn);
+                            let text_ok = matches!(&re_preps[0].parsed, Parsed::Prepare { text } if text == CS_TEXTS[t]);
+                            same_conn && text_ok && (k == 2) == !refusing_now[execs[0].node]
+                        }
+                        _ => false,
+                    };
+                    if !shape_ok {
+                        ctx.fail(format!("one execution put {} EXECUTE and {} later PREPARE frames on the wire (not: one EXECUTE; or EXECUTE, PREPARE of the handle's text on that connection, EXECUTE again)", execs.len(), re_preps.len()));
+                        out.push(format!("{}~frames={}+{}", op, execs.len(), re_preps.len()));
                         continue;
                     }
+                    let unprepared_on: Option<usize> = if re_preps.is_empty() { None } else { Some(execs[0].node) };
+                    let mid_of = |f: &Req| -> Option<usize> {
+                        let Parsed::Execute { result_metadata_id, .. } = &f.parsed else { return None };
+                        result_metadata_id.as_ref().and_then(|m| String::from_utf8_lossy(m).into_owned().strip_prefix(&format!("m{}v", t)).and_then(|v| v.parse::<usize>().ok()))
+                    };
+                    if unprepared_on.is_some() && execs.len() == 1 {
+                        // the re-preparation was refused: the caller gets the error, nothing else happens
+                        if res.is_ok() {
+                            ctx.fail("the node refused the re-preparation, yet the execution succeeded".to_owned());
+                        }
+                        let first = mid_of(execs[0]).map(|v| v.to_string()).unwrap_or_else(|| "?".into());
+                        let p = if b[0] == b'x' { format!("~p={}", preps(&before_exec, &[t], ctx)) } else { String::new() };
+                        out.push(format!("{}{}~mid={}~u={}~err", op, p, first, execs[0].node));
+                        continue;
+                    }
+                    let first_presented = mid_of(execs[0]);
+                    if let Some(node) = unprepared_on {
+                        // the re-sent EXECUTE is the first one again, except that it presents the metadata id the re-PREPARE's
+                        // PREPARED announced (the current one)
+                        let (Parsed::Execute { id: i1, params: p1, .. }, Parsed::Execute { id: i2, params: p2, .. }) = (&execs[0].parsed, &execs[1].parsed) else { unreachable!() };
+                        if i1 != i2 || p1.values != p2.values || p1.consistency != p2.consistency || p1.page_size != p2.page_size {
+                            ctx.fail(format!("after UNPREPARED on node {} the EXECUTE was not sent again with the same id / values / consistency / page size", node));
+                        }
+                        if mid_of(execs[1]) != Some(cur) {
+                            ctx.fail(format!("the re-PREPARE announced metadata version {}, the re-sent EXECUTE presents {:?}", cur, mid_of(execs[1])));
+                        }
+                    }
+                    let execs: Vec<&Req> = vec![*execs.last().unwrap()];
+                    let frames_for_p = before_exec;
                     let Parsed::Execute { id, result_metadata_id, params } = &execs[0].parsed else { unreachable!() };
                     if id[..] != cs_id(CS_TEXTS[t], 0)[..] {
                         ctx.fail(format!("execution of text {} carries the statement id {}", t, show_id(id)));
@@ -986,10 +1054,15 @@ fn run_cm(w: &[&str], ctx: &mut Ctx) -> String {
                         Err(e) => ctx.fail(format!("execution on a healthy cluster failed: {}", e)),
                     }
                     let chg = (presented != cur) as u8;
+                    let u = match unprepared_on {
+                        Some(node) => format!("~u={}~re={}", node, presented),
+                        None => "~u=-".to_owned(),
+                    };
+                    let first = first_presented.map(|v| v.to_string()).unwrap_or_else(|| "?".into());
                     if b[0] == b'h' {
-                        out.push(format!("{}~mid={}~chg={}", op, presented, chg));
+                        out.push(format!("{}~mid={}{}~chg={}", op, first, u, chg));
                     } else {
-                        out.push(format!("{}~p={}~mid={}~chg={}", op, preps(&frames, &[t], ctx), presented, chg));
+                        out.push(format!("{}~p={}~mid={}{}~chg={}", op, preps(&frames_for_p, &[t], ctx), first, u, chg));
                     }
                 }
                 _ => return "bad-case".to_owned(),
@@ -1133,6 +1206,42 @@ pub fn generate(rng: &mut Rng, tier: Tier, emit: &mut dyn FnMut(String)) {
         ops.push("bq0q1".to_owned());
         emit(format!("cs n=3 cap=2 u=1 sh={} ops={}", if mask % 2 == 0 { 0 } else { 2 }, ops.join(".")));
     }
+    // Session::prepare_batch (`s` op): for every node subset refusing / answering another id (3 nodes) a batch with a
+    // repeated text, a prepared statement and another text; then random flag / batch sequences
+    for mask in 0..27u32 {
+        let mut ops: Vec<String> = Vec::new();
+        let mut m = mask;
+        for node in 0..3 {
+            match m % 3 {
+                1 => ops.push(format!("F{}t0", node)),
+                2 => ops.push(format!("M{}t0", node)),
+                _ => {}
+            }
+            m /= 3;
+        }
+        ops.push("sq0q1q0p3".to_owned());
+        ops.push("sq1q2".to_owned());
+        emit(format!("cs n=3 cap=2 u=0 sh={} ops={}", if mask % 2 == 0 { 0 } else { 2 }, ops.join(".")));
+    }
+    for i in 0..if quick { 30 } else { 300 } {
+        let n = 1 + rng.below(3) as usize;
+        let len = 3 + rng.below(8);
+        let mut ops: Vec<String> = Vec::new();
+        for _ in 0..len {
+            ops.push(match rng.below(10) {
+                0..=4 => {
+                    let k = 1 + rng.below(4);
+                    format!("s{}", (0..k).map(|_| format!("{}{}", if rng.chance(3, 4) { 'q' } else { 'p' }, rng.below(5))).collect::<String>())
+                }
+                5 => format!("M{}t{}", rng.below(n as u64), rng.below(5)),
+                6 => format!("N{}t{}", rng.below(n as u64), rng.below(5)),
+                7 => format!("F{}t{}", rng.below(n as u64), rng.below(5)),
+                8 => format!("G{}t{}", rng.below(n as u64), rng.below(5)),
+                _ => format!("x{}c{}", rng.below(5), rng.below(3)),
+            });
+        }
+        emit(format!("cs n={} cap=2 u={} sh={} ops={}", n, rng.below(2), if i % 4 == 3 { *rng.pick(&[2u64, 3]) } else { 0 }, ops.join(".")));
+    }
     // cm: CachingSession handles and the shared result metadata (metadata-id extension). Directed: hits share the
     // statement object, concurrent misses need not, an evicted object lives on in its handles; then random histories
     for cap in [1, 2, 3] {
@@ -1145,9 +1254,45 @@ pub fn generate(rng: &mut Rng, tier: Tier, emit: &mut dyn FnMut(String)) {
         emit(format!("cm n=1 cap={} ops=c01.c01.A0.A1.h0.h2.h1.h3.x0.x1", cap));
         emit(format!("cm n=2 cap={} ops=g0.c00.A0.h1.h2.h0.A0.x0.h0.h1.h2", cap));
     }
-    for _ in 0..if quick { 40 } else { 400 } {
+    // extension x server-side eviction x refusal x ALTER: the re-PREPARE's announcement lands in the shared object
+    for cap in [1, 2] {
+        emit(format!("cm n=1 cap={} ops=g0.g0.A0.V0.h0.h1.x0", cap));
+        emit(format!("cm n=2 cap={} ops=g0.g0.A0.V0.V1.h0.h1.A0.V0.h1.h1.h0.x0", cap));
+        emit(format!("cm n=2 cap={} ops=c00.A0.V0.V1.h0.h1.h1.h0", cap));
+        emit(format!("cm n=2 cap={} ops=F1.g0.A0.h0.h0.h0.h0.G1.h0.h0.h0", cap));
+        emit(format!("cm n=3 cap={} ops=g0.F1.F2.A0.V1.V2.V0.h0.h0.h0.h0.x0.x0.G1.V0.x0.x0", cap));
+        emit(format!("cm n=2 cap={} ops=g0.g1.g0.A0.V0.V1.h0.h2.h1.x0.x1", cap));
+    }
+    for round in 0..if quick { 80 } else { 800 } {
         let len = 4 + rng.below(12);
         let mut slots = 0u64;
+        let nn = 1 + rng.below(3);
+        if round % 2 == 1 {
+            // with evictions and refusals
+            let mut ops: Vec<String> = Vec::new();
+            for _ in 0..len {
+                let t = if rng.chance(2, 3) { 0 } else { rng.below(3) };
+                ops.push(match rng.below(12) {
+                    0 => {
+                        slots += 1;
+                        format!("g{}", t)
+                    }
+                    1 => {
+                        slots += 2;
+                        format!("c{}{}", t, t)
+                    }
+                    2 | 3 => format!("A{}", t),
+                    4 | 5 => format!("V{}", rng.below(nn)),
+                    6 if nn > 1 => format!("F{}", 1 + rng.below(nn - 1)),
+                    7 if nn > 1 => format!("G{}", 1 + rng.below(nn - 1)),
+                    8 => format!("x{}", t),
+                    _ if slots > 0 => format!("h{}", rng.below(slots)),
+                    _ => format!("x{}", t),
+                });
+            }
+            emit(format!("cm n={} cap={} ops={}", nn, 1 + rng.below(3), ops.join(".")));
+            continue;
+        }
         let mut ops: Vec<String> = Vec::new();
         for _ in 0..len {
             let t = if rng.chance(2, 3) { 0 } else { rng.below(3) };
